@@ -100,6 +100,44 @@ def c01() -> List[M]:
     ]
 
 
+def c02() -> List[M]:
+    return [
+        M("C02", "revert-fix-aa55-checksum-signed", P, "        if (checksum & 0xFFFF) != int.from_bytes(data[-2:], byteorder=\"big\", signed=False):",
+          "        if checksum != int.from_bytes(data[-2:], byteorder=\"big\", signed=True):", "C02.R1"),
+        M("C02", "aa55-checksum-unmasked", P, "        if (checksum & 0xFFFF) != int.from_bytes(data[-2:], byteorder=\"big\", signed=False):",
+          "        if checksum != int.from_bytes(data[-2:], byteorder=\"big\", signed=False):", "C02.R1"),
+        M("C02", "aa55-length-strict-less", P, "        elif len(data) > data[6] + 9:", "        elif len(data) >= data[6] + 9:", "C02.R1"),
+        M("C02", "benign-aa55-mask-by-modulo", P, "        if (checksum & 0xFFFF) != int.from_bytes(", "        if (checksum % 65536) != int.from_bytes(", "clean"),
+        M("C02", "benign-aa55-mask-commuted", P, "        if (checksum & 0xFFFF) != int.from_bytes(", "        if (0xFFFF & checksum) != int.from_bytes(", "clean"),
+        M("C02", "aa55-response-type-high-bit", ES, "_READ_DEVICE_VERSION_INFO: ProtocolCommand = Aa55ProtocolCommand(\"010200\", \"0182\")",
+          "_READ_DEVICE_VERSION_INFO: ProtocolCommand = Aa55ProtocolCommand(\"010200\", \"8182\")", "C02.R2|C02.R1"),
+        M("C02", "rtu-read-no-trailing-bytes", MB, "        expected_length = data[4] + 7\n        if len(data) < expected_length:",
+          "        expected_length = data[4] + 7\n        if len(data) != expected_length:", "C02.R4"),
+        M("C02", "rtu-write-no-trailing-bytes", MB, "        if len(data) < 10:", "        if len(data) != 10:", "C02.R4"),
+        M("C02", "rtu-crc-position-from-len", MB, "    checksum_offset = expected_length - 2\n", "    checksum_offset = len(data) - 2\n", "C02.R4"),
+        M("C02", "rtu-value-echo-unsigned", MB, "int.from_bytes(data[6:8], byteorder='big', signed=True)", "int.from_bytes(data[6:8], byteorder='big', signed=False)", "C02.R5|C02.R4"),
+        M("C02", "tcp-value-echo-unsigned", MB, "int.from_bytes(data[10:12], byteorder='big', signed=True)", "int.from_bytes(data[10:12], byteorder='big', signed=False)", "C02.R5|C02.R4"),
+        M("C02", "tcp-write-min-length-too-strict", MB, "        if len(data) < 12:", "        if len(data) <= 12:", "C02.R4"),
+        M("C02", "tcp-offset-echo-signed", MB, "int.from_bytes(data[8:10], byteorder='big', signed=False)", "int.from_bytes(data[8:10], byteorder='big', signed=True)", "C02.R4"),
+        M("C02", "rtu-read-bytecount-vs-value", MB, "        if data[4] != value * 2:", "        if data[4] != value:", "C02.R4"),
+        M("C02", "tcp-get-offset-scale", P, "        return (address - self.first_address) * 2\n\n\nclass ModbusTcpReadCommand", "        return (address - self.first_address)\n\n\nclass ModbusTcpReadCommand", "C02.R3"),
+        M("C02", "rtu-first-address-zero", P, "            lambda x: validate_modbus_rtu_response(x, cmd, offset, value),\n        )\n        self.first_address: int = offset",
+          "            lambda x: validate_modbus_rtu_response(x, cmd, offset, value),\n        )\n        self.first_address: int = 0", "C02.R3"),
+        M("C02", "rtu-read-args-swapped", P, "            create_modbus_rtu_request(comm_addr, MODBUS_READ_CMD, offset, count),\n            MODBUS_READ_CMD, offset, count)",
+          "            create_modbus_rtu_request(comm_addr, MODBUS_READ_CMD, offset, count),\n            MODBUS_READ_CMD, count, offset)", "C02.R3"),
+        M("C02", "aa55-get-offset-added", P, "    def trim_response(self, raw_response: bytes):\n        \"\"\"Trim raw response from header and checksum data\"\"\"\n        return raw_response[7:-2]\n",
+          "    def trim_response(self, raw_response: bytes):\n        \"\"\"Trim raw response from header and checksum data\"\"\"\n        return raw_response[7:-2]\n\n    def get_offset(self, address: int):\n        return address * 2\n", "C02.R3"),
+        M("C02", "response-data-untrimmed", P, "            return self.command.trim_response(self.raw_data)", "            return self.raw_data", "C02.R3"),
+        M("C02", "et-write-value-unsigned", ET, "            value = int.from_bytes(raw_value, byteorder=\"big\", signed=True)\n            await self._read_from_socket(self._write_command(setting.offset, value))",
+          "            value = int.from_bytes(raw_value, byteorder=\"big\", signed=False)\n            await self._read_from_socket(self._write_command(setting.offset, value))", "C02.R5"),
+        M("C02", "dt-single-write-up-to-4-bytes", DT, "        if len(raw_value) <= 2:", "        if len(raw_value) <= 4:", "C02.R5"),
+        M("C02", "et-clear-param-large-constant", ET, "self._write_command(0xb9ad, 1)", "self._write_command(0xb9ad, 0xFFFF)", "C02.R5"),
+        M("C02", "tcp-validator-args-swapped", P, "lambda x: validate_modbus_tcp_response(x, cmd, offset, value)", "lambda x: validate_modbus_tcp_response(x, cmd, value, offset)", "C02.R3"),
+        M("C02", "benign-rtu-length-test-flipped", MB, "        expected_length = data[4] + 7\n        if len(data) < expected_length:",
+          "        expected_length = 7 + data[4]\n        if expected_length > len(data):", "clean"),
+    ]
+
+
 def corpus() -> List[M]:
     out: List[M] = []
     for name, fn in sorted(globals().items()):
